@@ -135,3 +135,17 @@ def subtree_frame(s0, s, n):
         smt.FA([m], z3.Implies(SUB(s0, n, m), H(s, m) == H(s0, m)), patterns=[H(s, m)]),
         smt.FA([m, x], z3.Implies(SUB(s0, n, m), z3.And(SUB(s, m, x) == SUB(s0, m, x), W(s, m, x) == W(s0, m, x))),
                   patterns=[SUB(s, m, x)])))
+
+
+def subtree_frame_steps(s0, s, n):
+    """T-frame for one subtree in two steps: prove the children structure below n unchanged, then use that the ghost tree
+    functions of that subtree read nothing else"""
+    m, x = z3.Ints("sf_m sf_x")
+    k0 = s0.f("_children", m)
+    same = smt.FA([m], z3.Implies(SUB(s0, n, m), z3.And(s.f("_children", m) == k0, s.len(Val.r(k0)) == s0.len(Val.r(k0)),
+                                                         s.elems(Val.r(k0)) == s0.elems(Val.r(k0)))), patterns=[SUB(s0, n, m)])
+    return {"prove:subtree-structure-unchanged": same, "subtree-frame": z3.And(
+        smt.FA([m], SUB(s, n, m) == SUB(s0, n, m), patterns=[SUB(s, n, m)]),
+        smt.FA([m], z3.Implies(SUB(s0, n, m), z3.And(TREE(s, m) == TREE(s0, m), H(s, m) == H(s0, m))), patterns=[TREE(s, m)]),
+        smt.FA([m], z3.Implies(SUB(s0, n, m), H(s, m) == H(s0, m)), patterns=[H(s, m)]),
+        smt.FA([m, x], z3.Implies(SUB(s0, n, m), z3.And(SUB(s, m, x) == SUB(s0, m, x), W(s, m, x) == W(s0, m, x))), patterns=[SUB(s, m, x)]))}
